@@ -15,10 +15,13 @@
       (`handler_over_a_good_transport_is_the_model`, `handler_over_a_failing_transport_is_the_model`);
     * for an inbound packet (`handlePktOver`): whatever becomes of the acknowledgement's write — taken, cut, delayed for
       good, failed — the client's bookkeeping is that of the successful handler (`inbound_bookkeeping_independent_of_the_transport`)
-      and the wire holds a prefix of the acknowledgement, all of it exactly when the write completed (`inbound_ack_on_the_wire`).
+      and the wire holds a prefix of the acknowledgement, all of it exactly when the write completed (`inbound_ack_on_the_wire`);
+    * `World.runHandler` with an unlimited model transport IS the good-transport instance: same context, same effects in the
+      same order, same flow (`world_handler_is_the_good_transport_instance`, `world_packet_handler_is_the_good_transport_instance`).
 -/
 import PosterModel.Properties.ActionOrder
 import PosterModel.Lemmas.TxStream
+import PosterModel.World
 
 namespace Poster
 open Poster.TxStream
@@ -131,6 +134,26 @@ theorem inbound_ack_on_the_wire (c : Ctx) (alive : Nat → Bool) (p : RxPacket) 
   refine ⟨⟨_, hc⟩, fun hd => ?_⟩
   rwa [writeAll_done_aux evs ack hd, List.append_nil] at hc
 
+/-! ## the link to `World` -/
+
+/-- **`World`'s handler step is the good-transport instance of `handleMsgOver`**: with an unlimited model transport, what
+    `World.runHandler` does for a request is exactly what the handler does over ANY fault-free transport that keeps accepting —
+    the same context, the same effects in the same order, the same flow. -/
+theorem world_handler_is_the_good_transport_instance (w : World) (m : Msg) (hl : w.cfg.wlimit = none) (evs : List WEv)
+    (hf : ∀ e ∈ evs, e.isFault = false) (hlen : m.pkt.length ≤ (evs.filter WEv.isAccept).length) :
+    (handleMsgOver w.c m evs).1 = .finished (w.c.handleMsg m true).1 (w.c.handleMsg m true).2.1 (w.c.handleMsg m true).2.2 ∧
+    w.runHandler (fun wok => w.c.handleMsg m wok) =
+      (({ w with c := (w.c.handleMsg m true).1 }).applyEffs (w.c.handleMsg m true).2.1, (w.c.handleMsg m true).2.2) := by
+  refine ⟨handler_over_a_good_transport_is_the_model w.c m evs hf hlen, ?_⟩
+  simp [World.runHandler, World.canWrite, hl]
+
+/-- the same for an inbound packet -/
+theorem world_packet_handler_is_the_good_transport_instance (w : World) (p : RxPacket) (hl : w.cfg.wlimit = none) :
+    w.runHandler (fun wok => w.c.handlePkt w.chanRxAlive p wok) =
+      (({ w with c := (w.c.handlePkt w.chanRxAlive p true).1 }).applyEffs (w.c.handlePkt w.chanRxAlive p true).2.1,
+        (w.c.handlePkt w.chanRxAlive p true).2.2) := by
+  simp [World.runHandler, World.canWrite, hl]
+
 /-! ## non-vacuity -/
 example : (handleMsgOver {} (.ff [0xc0, 0x00] 4) [.accept 0, .pending, .accept 0]).1 matches .finished _ _ _ := by decide
 example : (handleMsgOver {} (.ff [0xc0, 0x00] 4) [.accept 0, .pending]).2.1 = [0xc0] := by decide
@@ -145,3 +168,5 @@ end Poster
 #print axioms Poster.handler_over_a_failing_transport_is_the_model
 #print axioms Poster.inbound_bookkeeping_independent_of_the_transport
 #print axioms Poster.inbound_ack_on_the_wire
+#print axioms Poster.world_handler_is_the_good_transport_instance
+#print axioms Poster.world_packet_handler_is_the_good_transport_instance
